@@ -1,4 +1,5 @@
 import Nstd.Server.PropsC14
+import Nstd.Server.RefineC13C14
 /-
   C13, clause "a suspended client gets no read notifications until it is resumed", for SEVERAL clients
   of one Server and with the poll's pending batch: the single-client model of ModelC13 has no batch, so the
@@ -58,6 +59,23 @@ theorem onRead_only_from_poll (ms : List Move) (inp : PollIn) (o : Nstd.Server.C
     repeat' split
     all_goals simp
   · rename_i now tmo hpc; exact ⟨now, tmo, hpc⟩
+
+/-! ### the two models describe the same client
+
+  `Refine.Sim t s i`: client `i` of the event-loop state `s` has the backlog LENGTH, suspended flag, poll
+  registration and closing-set membership of the byte-level one-client state `t`.  The calls the clause is about
+  commute with that abstraction, so the byte-stream theorems of PropsC13 and the batch theorems above speak
+  about one and the same `ClientImpl`. -/
+
+theorem write_refines_count_model (t : Nstd.Server.C13.St) (s : St) (i : Id) (d : List Nat)
+    (o : Nstd.Server.C13.Outcome) (h : Refine.Sim t s i) :
+    Refine.Sim (Nstd.Server.C13.write t d o).1 (write s i d.length o) i := Refine.write_refines t s i d o h
+
+theorem suspend_refines_count_model (t : Nstd.Server.C13.St) (s : St) (i : Id) (h : Refine.Sim t s i) :
+    Refine.Sim (Nstd.Server.C13.suspend t) (suspend s i) i := Refine.suspend_refines t s i h
+
+theorem resume_refines_count_model (t : Nstd.Server.C13.St) (s : St) (i : Id) (h : Refine.Sim t s i) :
+    Refine.Sim (Nstd.Server.C13.resume t) (resume s i) i := Refine.resume_refines t s i h
 
 /-- non-vacuity: two readable clients fetched in ONE batch; the callback of the first suspends the second;
     the second's pending event is purged and it gets no onRead -/
